@@ -261,6 +261,50 @@ Verdict check_area(const J& r) {
   return v;
 }
 
+// ---------------------------------------------------------------------------------------------
+// C03.pole: end points on exactly opposite meridians whose shortest geodesic is the meridian over a pole.  The region
+// between that path and the equator is half of the hemisphere of the pole crossed, so S12 = +-pi c2 *exactly* (the A4
+// term vanishes for alp0 = 0), with the sign of the sense in which the longitude difference is taken (AngDiff gives
+// +180 for lon2 = lon1 + 180 and -180 for lon2 = lon1 - 180): S12 = sign(lon12) sign(pole) pi c2.  Direct from point 1
+// with the returned azimuth (+-0 or +-180) must reproduce it, and it is the limit of the neighbouring non-degenerate
+// problems lon12 = +-(180 - delta).  (Seeded change S-C03-m3 flips this sign for the exact solver only.)
+J gen_pole() {
+  J r = J::obj();
+  int solver = (int)vf::g::irange(0, 2);
+  gg::Ell e = gg::ellipsoid(solver_exact(solver) && vf::g::coin(1, 4) ? gg::EXACT_RANGE : gg::SERIES_WIDE);
+  r["solver"] = J::integer(solver); r["a"] = J::num(e.a); r["f"] = J::num(e.f);
+  r["lat1"] = J::num(gg::latitude()); r["lat2"] = J::num(gg::latitude());
+  // lon1 a multiple of 1/8 degree so that lon1 +- 180 is exact
+  r["lon1"] = J::num((double)vf::g::irange(-1440, 1440) / 8); r["east"] = J::integer(vf::g::coin());
+  return r;
+}
+Verdict check_pole(const J& r) {
+  Verdict v; int solver = (int)r.geti("solver"); double a = r.getd("a"), f = r.getd("f"), lat1 = r.getd("lat1"), lat2 = r.getd("lat2"), lon1 = r.getd("lon1");
+  bool east = r.geti("east");
+  if (solver < 0 || solver > 2 || !in_domain(solver, a, f) || !(std::fabs(lat1) < 90) || !(std::fabs(lat2) < 90) || !(std::fabs(lon1) <= 180) || lon1 * 8 != std::floor(lon1 * 8))
+    { v.skip("outside the generated domain"); return v; }
+  double lon2 = east ? lon1 + 180 : lon1 - 180;
+  Inv q = lib_inverse(solver, a, f, lat1, lon1, lat2, lon2);
+  v.tag(solver_exact(solver) ? "exact" : "series"); v.tag(fclass(f)); v.tag(east ? "lon12=+180" : "lon12=-180");
+  bool merid = (q.azi1 == 0 || std::fabs(q.azi1) == 180) && (q.azi2 == 0 || std::fabs(q.azi2) == 180);
+  if (!merid) { v.skip("shortest geodesic is not the meridian over a pole (antipodal region or prolate ellipsoid)"); return v; }
+  bool north = q.azi1 == 0;      // heads north from point 1: passes the north pole
+  v.tag(north ? "north-pole" : "south-pole");
+  // the meridian over the pole must really be the path: a12 = 180 - |beta1 + beta2| ... only the sign rule and the
+  // value of S12 are asserted here (the path itself is C02's business)
+  ref::Ellipsoid E(a, f);
+  L want = (east ? 1 : -1) * (north ? 1 : -1) * ref::PI_L * E.c2;
+  L circ = fabsl((L)q.a12) / 90;
+  L tolp = kdoc(solver, a, f) * (1 + circ);
+  L tS = tolS(solver, E, tolp, lat1, q.azi1, lat2, q.azi2, true, circ);
+  v.nontrivial = true;
+  v.le(fabsl((L)q.S12 - want), tS, "Inverse S12 of a meridional geodesic over a pole vs sign(lon12) sign(pole) pi c2 [m^2]");
+  // Direct with the returned azimuth (signed zero / +-180 carries the side) reproduces S12
+  Dir o = lib_direct(solver, a, f, lat1, lon1, q.azi1, false, q.s12, false);
+  v.le(fabsl((L)o.S12 - (L)q.S12), 2 * tS, "Direct(azi1, s12) S12 vs Inverse S12 over a pole [m^2]");
+  return v;
+}
+
 vf::Reg r1({"C03.ode", "generated segments (direct / arc direct / line position / inverse of the end points) x solver x ellipsoid vs Jacobi fields and area integral of the ODE reference; non-trivial: s12 != 0 and reference converged", 0.3,
             [] { return rc::gen::exec([] { return gen_direct(true); }); }, check_ode, nullptr});
 vf::Reg r2({"C03.rev", "segment travelled back from its end point; non-trivial: s12 != 0", 0.2,
@@ -269,6 +313,8 @@ vf::Reg r3({"C03.add", "segment split at a generated fraction t (20% within 1e-2
             [] { return rc::gen::exec([] { return gen_direct(false); }); }, check_add, nullptr});
 vf::Reg r4({"C03.cfg", "series vs exact vs Geodesic(exact=true), direct interface, |f| <= 0.2; non-trivial: length != 0", 0.2,
             [] { return rc::gen::exec([] { J r = gen_direct(false); r["solver"] = J::integer(0); return r; }); }, check_cfg, nullptr});
+vf::Reg r6({"C03.pole", "end points on exactly opposite meridians (lon2 = lon1 +- 180, both senses) whose shortest geodesic is the meridian over a pole: S12 = sign(lon12) sign(pole) pi c2 exactly, reproduced by Direct with the returned azimuth; every evaluated case non-trivial", 0.05,
+            [] { return rc::gen::exec([] { return gen_pole(); }); }, check_pole, nullptr});
 vf::Reg r5({"C03.area", "ellipsoid area vs closed form for generated ellipsoids; random polygons (3-8 vertices) on the sphere vs Gauss-Bonnet; every case non-trivial", 0.1,
             [] { return rc::gen::exec([] {
                J r = J::obj(); gg::Ell e = gg::ellipsoid(gg::EXACT_RANGE); r["a"] = J::num(e.a); r["f"] = J::num(e.f);
